@@ -241,6 +241,7 @@ class ContractDB:
         self.functions = {}
         self.closed = set()   # interface type names (pkg.Name) whose dynamic types are exactly the implementers known to the module
         self.externpure = []  # package path prefixes whose functions/methods are deterministic and side-effect free (uninterpreted)
+        self.pkg_frame = {}
         self.pkg_safety = {}  # package path -> properties the panic-freedom obligations of its functions count for
 
     def load_dir(self, root, module):
@@ -327,6 +328,10 @@ class ContractDB:
                 last = None
             elif word == 'externpure':
                 self.externpure.extend(rest.split())
+                last = None
+            elif word == 'frameprop':
+                # the frame obligations (writes inside the modifies clause) of every function of the package count for these
+                self.pkg_frame.setdefault(pkg, set()).update(rest.replace(',', ' ').split())
                 last = None
             elif word == 'safetyprop':
                 self.pkg_safety.setdefault(pkg, set()).update(rest.replace(',', ' ').split())
@@ -425,6 +430,9 @@ class ContractDB:
 
     def get(self, pkg, short):
         return self.contracts.get((pkg, short))
+
+    def frame_props(self, pkg):
+        return tuple(sorted(self.pkg_frame.get(pkg, ())))
 
     def safety_props(self, pkg):
         return tuple(sorted(self.pkg_safety.get(pkg, ())))
